@@ -8,6 +8,10 @@ def find(ctx, oblig, diag):
         return ctx["replay_tool"](["meta", "ok_status:202"] + REQ["default"])
     if "C03:call.extra_headers_attached" in oblig:
         return ctx["replay_tool"](["meta", "ok_header:x-extra=1"] + REQ["default"])
+    if "cmu.future" in oblig:
+        r = ctx["replay_tool"](["meta", "err:NoSuchUpload", "POST", "/bkt/key?uploadId=u1"])
+        if r is not None and r.get("violates"): return r
+        return ctx["replay_tool"](["meta", "ok_header:x-extra=1", "POST", "/bkt/key?uploadId=u1"])
     if "merge_custom_headers" in oblig:
         return ctx["replay_tool"](["meta", "ok_header2:link=<a>; rel=1|<b>; rel=2|<c>; rel=3", "GET", "/bkt/key"])
     if "C03:call.extensions_attached" in oblig:
@@ -18,6 +22,8 @@ def standing(ctx, oblig, diag):
     """response metadata on an ordinary operation and on GetObject (its own merge helper): status override, single extra header,
     an extra header attached with several values"""
     res = None
+    r = ctx["replay_tool"](["meta", "err:NoSuchUpload", "POST", "/bkt/key?uploadId=u1"])
+    if r is not None and r.get("violates"): return r
     for req in (["DELETE", "/bkt/key"], ["GET", "/bkt/key"]):
         for mode in ("ok_status:202", "ok_header:x-extra=1", "ok_header2:link=<a>; rel=1|<b>; rel=2|<c>; rel=3"):
             r = ctx["replay_tool"](["meta", mode] + req)
